@@ -835,9 +835,12 @@ class MultipleRangeStaticProducer(StaticProducer):
                 data.append(self.partBoundary)
                 self.partBoundary = None
             p = self.fileObject.read(
-                min(
-                    self.bufferSize - dataLength,
-                    self._partSize - self._partBytesWritten,
+                max(
+                    0,
+                    min(
+                        self.bufferSize - dataLength,
+                        self._partSize - self._partBytesWritten,
+                    ),
                 )
             )
             self._partBytesWritten += len(p)
